@@ -471,6 +471,13 @@ fn corpus(size: &str, seed: u64) -> (Vec<Case>, Vec<Case>) {
         let len = r.below(12);
         groups.push(Case { input: fix_class(payload(&mut r, BYTE, len, 4), BYTE), ecl: Some(l), version: Some(v), mask: None, mode: None });
     }
+    // many small symbols with automatic version (mask selection is most sensitive there: few modules, close penalties)
+    for i in 0..(if big { 3000 } else { 600 }) {
+        let len = 1 + r.below(if i % 3 == 0 { 40 } else { 14 });
+        let mode = r.below(3);
+        let st = r.below(6);
+        groups.push(Case { input: fix_class(payload(&mut r, mode, len, st), mode), ecl: Some(r.below(4)), version: None, mask: None, mode: None });
+    }
     for i in 0..(if big { 200 } else { 40 }) {
         let len = r.below(if i % 4 == 0 { 400 } else { 60 });
         let mode = r.below(3);
